@@ -95,6 +95,8 @@ MUTANTS = [
     ("correlation matrix built with the axes swapped", "AegeanTools/fitting.py",
      "    C = np.vstack([elliptical_gaussian(x, y, 1, i, j, sx, sy, theta)",
      "    C = np.vstack([elliptical_gaussian(x, y, 1, j, i, sx, sy, theta)", "C04-R9"),
+    ("noise level from the whole map (seed C04d)", "AegeanTools/source_finder.py",
+     "            errs = np.nanmax(rms)\n", "            errs = np.nanmax(rmsimg)\n", "C04-R10"),
 ]
 TWINS = [
     ("theta factor via radians", "AegeanTools/fitting.py",
@@ -189,6 +191,7 @@ def run(ctx):
     r4_r5(ctx, prog, fit, wrapper)
     r6(ctx, prog, fit, wrapper, dfun_call)
     r8_pairing(ctx, prog)
+    r10_noise(ctx, prog)
     ctx.rule("C04-R9", "noise / covariance model: the correlation matrix is "
              "built from the model function with the pixel positions on the "
              "right axes, the two widths in (first, second) axis order and "
@@ -759,3 +762,71 @@ def r8_pairing(ctx, prog):
                       (obj, fld, sorted(d) or "no fit parameter",
                        sorted(may)), node=ret)
     ctx.floor("C04-R8", n, 6, "uncertainty fields paired with parameters")
+
+
+def r10_noise(ctx, prog):
+    """the noise level of the Fisher matrix is the island's own"""
+    from .c08 import _resolve_local
+    ctx.rule("C04-R10", "noise model: the errs handed to covar_errors is "
+             "taken from the rms map restricted to the island being fitted "
+             "(a cut-out of the map), in the blind and in the priorized "
+             "path alike -- the noisiest pixel of the WHOLE image would "
+             "scale every island's uncertainties by max(rms)/rms_island")
+    n = 0
+    for short in ("source_finder.SourceFinder._fit_island",
+                  "source_finder.SourceFinder._refit_islands"):
+        fi = prog.func(short)
+        for c in walk_no_nested(fi.node):
+            if not (isinstance(c, ast.Call) and
+                    norm(c.func).split(".")[-1] == "covar_errors"):
+                continue
+            e = kwarg(c, "errs")
+            if e is None and len(c.args) >= 3:
+                e = c.args[2]
+            if e is None:
+                continue
+            n += 1
+            for _ in range(3):
+                if isinstance(e, ast.Name):
+                    e = _resolve_local(fi.node, e)
+            arg = e.args[0] if isinstance(e, ast.Call) and e.args and \
+                norm(e.func).split(".")[-1] in ("nanmax", "max", "nanmean",
+                                                "nanmedian", "mean",
+                                                "median") else e
+
+            def is_cut(x, depth=0):
+                """a subscripted (cut-out) view of an rms array"""
+                if depth > 4:
+                    return None
+                if isinstance(x, ast.Subscript) and not isinstance(
+                        x.slice, ast.Constant):
+                    return "rms" in norm(x.value).lower()
+                if isinstance(x, ast.Name):
+                    defs = [d.value for d in walk_no_nested(fi.node)
+                            if isinstance(d, ast.Assign) and
+                            any(norm(t) == x.id for t in d.targets)]
+                    if len(defs) == 1:
+                        return is_cut(defs[0], depth + 1)
+                    # a, b = island_data.scalars / tuple unpacking etc.
+                    tdefs = [d for d in walk_no_nested(fi.node)
+                             if isinstance(d, ast.Assign) and
+                             isinstance(d.targets[0], (ast.Tuple, ast.List))
+                             and any(norm(t) == x.id
+                                     for t in d.targets[0].elts)]
+                    return None if (tdefs or not defs) else None
+                if isinstance(x, ast.Attribute):
+                    return False if "rms" in x.attr.lower() else None
+                return None
+            v = is_cut(arg)
+            if v is None:
+                ctx.unknown_site("C04-R10", fi, "noise level %s not traced "
+                                 "to the rms map" % norm(e, 60), node=c)
+                continue
+            ctx.check("C04-R10", fi, "errs of %s = %s" % (norm(c.func),
+                                                         norm(e, 60)), v,
+                      "the noise level %s is taken from the whole rms map, "
+                      "not from the island's cut-out: all uncertainties of "
+                      "an island in a quiet part of the image are inflated "
+                      "by the noisiest region elsewhere" % norm(e, 60),
+                      node=c)
+    ctx.floor("C04-R10", n, 2, "covar_errors calls with a noise level")
